@@ -189,6 +189,7 @@ func finish(repo, vdir, prop, tier string, seed int, jobs []*job, funcs map[stri
 		Unreached    []string          `json:"unreached,omitempty"`
 	}
 	var sums []jobSummary
+	reachAgg := map[string]bool{} // witness label -> reached in at least one configuration of the harness
 	for _, j := range jobs {
 		r := j.res
 		rep := r.Report
@@ -212,11 +213,15 @@ func finish(repo, vdir, prop, tier string, seed int, jobs []*job, funcs map[stri
 		js := jobSummary{Harness: r.Harness, Config: j.config, Paths: r.Stats.Paths, Steps: r.Stats.Steps, Obligations: rep.Obligations, Discharged: rep.Discharged,
 			Queries: r.Queries, SolverS: round3(r.SolverS), WallS: round3(r.WallS), Aborted: r.Aborted, Inconclusive: rep.Inconclusive, Bounds: j.spec.Opts}
 		for l, ok := range rep.ReachLabels {
+			key := r.Harness + ":" + l
 			if ok {
 				js.Reached = append(js.Reached, l)
+				reachAgg[key] = true
 			} else {
 				js.Unreached = append(js.Unreached, l)
-				vacuous = append(vacuous, r.Harness+":"+l)
+				if _, seen := reachAgg[key]; !seen {
+					reachAgg[key] = false
+				}
 			}
 		}
 		sort.Strings(js.Reached)
@@ -242,6 +247,12 @@ func finish(repo, vdir, prop, tier string, seed int, jobs []*job, funcs map[stri
 			}
 		}
 	}
+	for k, ok := range reachAgg {
+		if !ok {
+			vacuous = append(vacuous, k)
+		}
+	}
+	sort.Strings(vacuous)
 	if len(samples) == 0 {
 		samples = append(samples, map[string]interface{}{"note": "no witness inputs were produced in this run", "harnesses": len(jobs)})
 	}
